@@ -12,6 +12,7 @@ from harness.common import Machinery
 ENUM_CFG = "INIT EnumInit\nNEXT EnumNext\nCONSTRAINT EnumEmit\nINVARIANT LawsHold\nCHECK_DEADLOCK FALSE\n"
 JUDGE_CFG = "INIT JudgeInit\nNEXT JudgeNext\nCHECK_DEADLOCK FALSE\n"
 DRIVER = "checks.c19_driver:c19_driver"
+N_RANDOM = 30000          # random texts and as many random values (thorough)
 
 
 def key(c):
@@ -141,13 +142,10 @@ def rnd_value(rng, depth, anc=0, top=True):
     return {"k": "back", "d": rng.randint(1, anc)}
 
 
-def run(rep):
-    thorough = rep.tier == "thorough"
-    # 1. TLC enumerates the case spaces and model-checks the laws of the reference on every enumerated case
-    res = tlc.run(rep.pid, "C19", ENUM_CFG, env={"TIER": rep.tier}, timeout=2400, tag="enum", heap="6g")
-    rep.add_tlc("C19.Enum+Laws", res)
+def prepare(records, tier, seed):
+    """TLC's printed cases -> distinct cases, + host-representation variants, + seeded random cases (thorough)"""
     seen, cases, fam = set(), [], {}
-    for c in res.records:
+    for c in records:
         k = key(c)
         if k in seen:
             continue
@@ -155,14 +153,6 @@ def run(rep):
         c["id"] = len(cases)
         cases.append(c)
         fam[c["fam"]] = fam.get(c["fam"], 0) + 1
-    for need, least in (("tokc", 1000), ("tokf", 400), ("mut", 3000), ("val", 3000)):
-        if fam.get(need, 0) < least:
-            raise Machinery("enumeration produced only %d cases of family %s" % (fam.get(need, 0), need))
-    names = {"tokc": "token-class sequences (all short ones, then every one-token extension of a viable prefix)",
-             "tokf": "full-vocabulary token sequences", "mut": "single-token mutations of valid texts (incl. nesting 30)",
-             "val": "value structures depth<=3 width<=2, key strings, cycles 1-3, shared nodes"}
-    for f, n in sorted(fam.items()):
-        rep.spaces.append({"space": names.get(f, f) + " (TLC-enumerated)", "cases": n, "complete": True})
     # host representation mix: integer-valued numbers as host integers as well as host floats
     extra = []
     for c in cases:
@@ -174,22 +164,24 @@ def run(rep):
                 d["ir"] = True
                 extra.append(d)
     allc = cases + extra
-    # seeded random cases on top (thorough)
     nrand = 0
-    if thorough:
-        rng = random.Random(rep.seed)
-        for i in range(30000):
+    if tier == "thorough":
+        rng = random.Random(seed)
+        for i in range(N_RANDOM):
             t = rnd_text(rng, rng.randint(0, 4))
             if i % 3 == 2:
                 t = rnd_damage(rng, t)
             allc.append({"id": len(allc), "kind": "parse", "fam": "rnd", "t": t})
-        for i in range(30000):
+        for i in range(N_RANDOM):
             allc.append({"id": len(allc), "kind": "str", "fam": "rnd", "v": rnd_value(rng, rng.randint(0, 4)),
                          "ir": rng.random() < 0.5})
-        nrand = 60000
-        rep.spaces.append({"space": "seeded random texts (1/3 damaged) and value trees", "cases": nrand, "complete": False})
-    # 2. replay into the engine
-    results = engine.run_cases(rep.pid, allc, driver=DRIVER)
+        nrand = 2 * N_RANDOM
+    return allc, fam, len(extra), nrand
+
+
+def observe(pid, allc):
+    """replay into the engine; one judge record per case (inputs and observations only)"""
+    results = engine.run_cases(pid, allc, driver=DRIVER)
     byid = {c["id"]: c for c in allc}
     recs = []
     for r in results:
@@ -204,13 +196,46 @@ def run(rep):
         recs.append(rec)
     if len(recs) != len(allc):
         raise Machinery("engine returned %d results for %d cases" % (len(recs), len(allc)))
-    # 3. judge in TLC
-    verdicts, st, tr, wall = tlc.judge(rep.pid, "C19", recs, JUDGE_CFG, shards=16 if len(recs) > 3000 else None)
-    rep.add_judge(len(recs), st, tr)
-    rep.evaluations = len(recs)
+    return recs
+
+
+def judge(pid, recs):
+    verdicts, st, tr, wall = tlc.judge(pid, "C19", recs, JUDGE_CFG, shards=16 if len(recs) > 3000 else None, timeout=3000)
     got = {v["id"]: v for v in verdicts}
     if len(got) != len(recs):
         raise Machinery("judge returned %d verdicts for %d records" % (len(got), len(recs)))
+    return got, st, tr
+
+
+def choose_alt(alts, findings):
+    """TLC lists every smallest set of named deviations that predicts the observation exactly;
+    report under one whose members are all recorded findings, if there is one"""
+    listed = [a for a in alts if all(d in findings for d in a)]
+    return (listed or alts or [[""]])[0]
+
+
+def run(rep):
+    # 1. TLC enumerates the case spaces and model-checks the laws of the reference on every enumerated case
+    res = tlc.run(rep.pid, "C19", ENUM_CFG, env={"TIER": rep.tier}, timeout=3000, tag="enum", heap="6g")
+    rep.add_tlc("C19.Enum+Laws", res)
+    allc, fam, nextra, nrand = prepare(res.records, rep.tier, rep.seed)
+    for need, least in (("tokc", 1000), ("tokf", 400), ("mut", 3000), ("val", 3000)):
+        if fam.get(need, 0) < least:
+            raise Machinery("enumeration produced only %d cases of family %s" % (fam.get(need, 0), need))
+    names = {"tokc": "token-class sequences (all short ones, then every one-token extension of a viable prefix)",
+             "tokf": "full-vocabulary token sequences (same scheme)", "mut": "single-token mutations of valid texts (incl. nesting 30)",
+             "val": "value structures depth<=3 width<=2, key strings, cycles 1-3, shared nodes"}
+    for f, n in sorted(fam.items()):
+        rep.spaces.append({"space": names.get(f, f) + " (TLC-enumerated)", "cases": n, "complete": True})
+    if nrand:
+        rep.spaces.append({"space": "seeded random texts (1/3 damaged) and value trees", "cases": nrand, "complete": False})
+    byid = {c["id"]: c for c in allc}
+    # 2. replay into the engine
+    recs = observe(rep.pid, allc)
+    # 3. judge in TLC
+    got, st, tr = judge(rep.pid, recs)
+    rep.add_judge(len(recs), st, tr)
+    rep.evaluations = len(recs)
     rmap = {r["id"]: r for r in recs}
     unsupported = 0
     for i, v in sorted(got.items()):
@@ -225,13 +250,12 @@ def run(rep):
             unsupported += 1
             continue
         detail = {"expected": v["exp"], "actual": {"out": r["out"], "rt": r["rt"], "protos": r.get("protos")}, "case": c}
-        devs = v.get("devs") or [""]
-        for d in devs:
+        for d in choose_alt(v.get("alts") or [], rep.findings):
             rep.mismatch(show_case(c), detail, dev=d)
     rep.exhaustive = True
     rep.notes["rule"] = "distinct texts / (value tree, host number representation) pairs; every one is replayed and judged"
     rep.notes["families"] = fam
-    rep.notes["representation_variants"] = len(extra)
+    rep.notes["representation_variants"] = nextra
     rep.notes["random_cases"] = nrand
     rep.notes["random_unsupported"] = unsupported
     rep.notes["distinct_nontrivial"] = len(recs)
